@@ -79,6 +79,7 @@ def run(ctx):
         else:
             ctx.notes.setdefault("known_findings_resolved", []).append(fid)
     return ctx.finish(
+        level="translation_validation" if not ctx.obligations else "proof",
         rule="(a) random abstract programs (1-8 commands, 0-4 arguments, ints, decimals, strings from a pool with quotes/backslashes/delimiters/"
              "non-ASCII/control characters, nested lists to depth 4, tuples) rendered under a random layout and under a plain one; (b) two single-character "
              "mutations of each rendering; (c) token soups, loosely generated programs and their mutations; distinct by source text; non-trivial = accepted, or a mutation/soup",
